@@ -2219,7 +2219,7 @@ pub fn decode_mcase(prop: &str, u: &mut arbitrary::Unstructured) -> MCase {
                     Op::Advance { blocks: 1, secs: 5 }
                 }
             }
-            14 => Op::Fault { on: arb_bool(u, 1, 2) },
+            14 => if prop == "C06" && arb_bool(u, 1, 6) { Op::GroupRenounce } else if matches!(prop, "C03" | "C05") && arb_bool(u, 1, 6) { Op::SilentVotes { prop: d_target(u), vote: [0u8, 0, 0, 1, 2][arb_below(u, 5)] } } else { Op::Fault { on: arb_bool(u, 1, 2) } },
             _ => if prop == "C15" { Op::FundDeposit { amt: arb_below(u, 60) as u32 } } else { Op::Fund { amt: arb_below(u, 200) as u32 } },
         };
         ops.push(op);
